@@ -39,7 +39,9 @@ REWRITES = {
     "internal/compaction/manager.go": [("RunJobInSubprocess(ctx, config, m.logger, extraEnv...)",
                                         "verifRunJob(ctx, config, m.logger, extraEnv...)", 1)],
     "internal/compaction/subprocess.go": [("backend, err := createStorageBackendFromConfig(config, logger)",
-                                           "backend, err := verifSubprocessBackend(config, logger)", 1)],
+                                           "backend, err := verifSubprocessBackend(config, logger)", 1),
+                                          ('db, err := sql.Open("duckdb", "")', "db, err := verifOpenDB(sql.Open)", 1),
+                                          ("defer db.Close()", "defer verifCloseDB(db)", 1)],
     "internal/compaction/job.go": [("time.Now()", "verifNow()", 1)],
     "internal/compaction/hourly.go": [("time.Now()", "verifNow()", 1)],
 }
@@ -177,16 +179,24 @@ def gen_cases(rng, npart, tier):
     cases = []
     vctr = [0]
     for pi in range(npart):
-        n = rng.choice([2, 3, 3, 4, 4, 5, 5, 6, 7, 9])
+        mode = pi % 3
+        if mode == 0:        # whole-process crash sweep
+            n = rng.choice([3, 3, 4, 5, 6, 7])
+            max_batch = rng.choice([10, 10, 4, 3, 0, 600])
+        elif mode == 1:      # subprocess kill sweep: one batch that can be halved
+            n = rng.choice([4, 4, 5, 6, 7, 8, 9])
+            max_batch = rng.choice([10, 0, 600, n, n + 1, 4 if n >= 8 else 10])
+        else:                # several batches: first job done, crash / kill in a later job
+            n = rng.choice([5, 6, 7, 8, 9])
+            max_batch = rng.choice([2, 3, 4, 4])
         files = gen_files(rng, n, vctr)
         min_files = rng.choice([2, 2, 3])
-        max_batch = rng.choice([10, 10, 4, 3, 2, 0, 600])
         base = {"min_files": min_files, "max_batch": max_batch, "files": files}
         eff = max_batch if 2 <= max_batch <= 500 else (30 if max_batch < 2 else 500)
         first = n if n <= eff else eff              # size of the first batch (approximation, only for sweeps)
         pts = list(range(0, total_steps(first) + 2))
-        if tier == "quick" and len(pts) > 7:
-            pts = sorted(set(rng.sample(pts, 5) + [2, 3, 4]))
+        if tier == "quick" and len(pts) > 9:
+            pts = sorted(set(rng.sample(pts, 6) + [2, 3, 4]))
         mode = pi % 3
         for k in pts:
             if mode == 0:        # whole-process crash in the first job
@@ -265,11 +275,15 @@ def nontrivial(c):
 
 
 class Interner:
-    def __init__(self):
+    """key = the dedup key the code uses: (tag values, time) when files carry arc:tags, the
+    timestamp alone in an arc:dedup_time-only partition (no tag columns)"""
+
+    def __init__(self, time_only=False):
         self.k, self.v = {}, {}
+        self.time_only = time_only
 
     def row(self, r):
-        key = json.dumps([r[0], r[1]])
+        key = json.dumps([r[1]] if self.time_only else [r[0], r[1]])
         val = json.dumps(r)
         if key not in self.k:
             self.k[key] = len(self.k) + 1
@@ -287,7 +301,8 @@ def coutcome(o):
 
 
 def case_to_coq(c, obs):
-    it = Interner()
+    metas = {f["meta"] for f in c["files"]}
+    it = Interner(time_only=("dedup_time" in metas and "tags" not in metas))
     files = clist([cfile(it, f) for f in obs["start"]])
     cys = []
     for ocs, co in zip(c["cycles"], obs["cycles"]):
@@ -308,8 +323,12 @@ def run_impl(cases, tag, units=None):
     if len(out["cases"]) != len(cases):
         raise vlib.TieBroken("C09 harness returned %d results for %d cases" % (len(out["cases"]), len(cases)))
     for c, o in zip(cases, out["cases"]):
-        if o.get("err") or len(o["cycles"]) != len(c["cycles"]):
+        if o.get("err") or len(o.get("cycles") or []) != len(c["cycles"]):
             raise vlib.TieBroken("C09 harness could not run case %s: %s" % (c["id"], o.get("err")))
+        o["start"] = o.get("start") or []
+        for co in o["cycles"]:
+            co["files"] = co.get("files") or []
+            co["visible"] = co.get("visible") or []
     return out
 
 
@@ -378,7 +397,7 @@ def shrink_case(c, fails):
         for i, ocs in enumerate(cur["cycles"]):
             for j in range(len(ocs)):
                 cands.append(dict(cur, cycles=cur["cycles"][:i] + [ocs[:j] + ocs[j + 1:]] + cur["cycles"][i + 1:]))
-            if len(cur["cycles"]) > 1:
+            if len(cur["cycles"]) > 1 and i < len(cur["cycles"]) - 1:      # the final undisturbed cycle stays
                 cands.append(dict(cur, cycles=cur["cycles"][:i] + cur["cycles"][i + 1:], soon=cur["soon"][:i] + cur["soon"][i + 1:]))
         if not cands:
             break
@@ -419,7 +438,7 @@ def run(res, tier, seed):
         "tools/lib_crash/ctxcalls (go/ast control-context extraction of Job.Run / recoverManifest / compactFilesAdaptively)",
     ]
 
-    npart = 14 if tier == "quick" else 140
+    npart = 36 if tier == "quick" else 300
     t1 = time.time()
     cases = witness_cases() + gen_cases(rng, npart, tier)
     corpus_dir = os.path.join(vlib.ROOT, "corpus", "C09")
@@ -467,6 +486,7 @@ def run(res, tier, seed):
     known = [k for k in vlib.known_for("C09") if k.get("signature") == SIGNATURE]
     reproduced = 0
     reported = False
+    n_bad = sum(1 for i in orf if not (excluded_class(cases[i]) and known and i in morf and i not in dis))
     for i in sorted(orf):
         c = cases[i]
         replay_obj = {"kind": "oracle-failure", "case": dict(c, cycles=[[list(o) for o in ocs] for ocs in c["cycles"]]),
@@ -475,7 +495,8 @@ def run(res, tier, seed):
         if excluded_class(c) and known and i in morf and i not in dis:
             reproduced += 1
             continue
-        res.violation("rows lost or duplicated after a compaction history (case %s)" % c["id"], replay_obj)
+        if sum(1 for v in res.violations) < 3:      # at most three concrete inputs are written out
+            res.violation("rows lost or duplicated after a compaction history (case %s; %d such cases in this run)" % (c["id"], n_bad), replay_obj)
         reported = True
     if reproduced:
         res.known_finding("a compaction job killed after its upload is retried on halves by compactFilesAdaptively without manifest recovery: "
